@@ -81,6 +81,8 @@ type cdDrv struct {
 	nstreamDropped, nstreamAborted              int
 	nconnCut, nscenario, ndeliver               int
 	npost, nsnappost                            int
+	nburst, nburstMsg, nburstMissing            int
+	burstSizes                                  []int
 	inproc                                      bool
 	nnotrun                                     int
 	hugeLeft                                    int    // corruptions with a huge length still to be run in a child process
@@ -1820,6 +1822,259 @@ func (d *cdDrv) postStage(n, nsnap int) {
 	}
 }
 
+// ------------------------------------------------------------------ (g) bursts: the writer's batch loop
+
+// cdGated is an outgoing connection whose Write blocks until the gate is opened; the first
+// Write call is announced on `stalled`
+type cdGated struct {
+	mu      sync.Mutex
+	buf     []byte
+	gate    chan struct{}
+	stalled chan struct{}
+	once    sync.Once
+}
+
+func (c *cdGated) Write(p []byte) (int, error) {
+	c.once.Do(func() { close(c.stalled) })
+	<-c.gate
+	c.mu.Lock()
+	c.buf = append(c.buf, p...)
+	c.mu.Unlock()
+	return len(p), nil
+}
+func (c *cdGated) Flush()       {}
+func (c *cdGated) Close() error { return nil }
+func (c *cdGated) bytes() []byte {
+	c.mu.Lock()
+	defer c.mu.Unlock()
+	return append([]byte(nil), c.buf...)
+}
+
+// cdSplit cuts a recorded stream into frames by the documented formats (it only finds the
+// boundaries; the real decoder reads the content)
+func cdSplit(v2 bool, raw []byte) (ends []int) {
+	p := 0
+	for p < len(raw) {
+		q := p
+		if !v2 {
+			if p+8 > len(raw) {
+				break
+			}
+			q = p + 8 + int(binary.BigEndian.Uint64(raw[p:]))
+		} else {
+			switch raw[p] {
+			case rafthttp.VerifMsgTypeLinkHeartbeat:
+				q = p + 1
+			case rafthttp.VerifMsgTypeAppEntries:
+				if p+9 > len(raw) {
+					return
+				}
+				n := int(binary.BigEndian.Uint64(raw[p+1:]))
+				q = p + 9
+				for i := 0; i < n; i++ {
+					if q+8 > len(raw) {
+						return
+					}
+					q += 8 + int(binary.BigEndian.Uint64(raw[q:]))
+				}
+				q += 8
+			case rafthttp.VerifMsgTypeApp:
+				if p+9 > len(raw) {
+					return
+				}
+				q = p + 9 + int(binary.BigEndian.Uint64(raw[p+1:]))
+			default:
+				return
+			}
+		}
+		if q > len(raw) || q <= p {
+			break
+		}
+		ends = append(ends, q)
+		p = q
+	}
+	return
+}
+
+// burstScenario: a real streamWriter is stalled inside a Write (a slow peer), n messages are
+// queued meanwhile - every one handed over with a blocking send, as many as the queue holds
+// before the writer is released, the rest behind it -, then the connection is released.
+// Everything that was handed over has to be on the connection, in order: the frames found
+// on it are attributed, in order, to the messages handed over (the writer's own heartbeats
+// are recognised by their bytes), and a fresh real decoder reads the bytes back.  The log is
+// cut into segments of 100 frames (all frames are self-contained here: on the msgappv2
+// stream two groups alternate, so no continuation frame is due).
+func (d *cdDrv) burstScenario(v2 bool, n int) {
+	const sender, receiver = 1, 2
+	sw := rafthttp.VerifStartStreamWriter(types.ID(receiver))
+	defer sw.Stop()
+	c := &cdGated{gate: make(chan struct{}), stalled: make(chan struct{})}
+	if !sw.Attach(v2, c, c, c) {
+		return
+	}
+	var q chan<- raftpb.Message
+	for t0 := time.Now(); ; {
+		ch, ok := sw.Writec()
+		if ok {
+			q = ch
+			break
+		}
+		if time.Since(t0) > 30*time.Second {
+			return
+		}
+		time.Sleep(50 * time.Microsecond)
+	}
+	mk := func(i int) raftpb.Message {
+		if v2 {
+			m := d.appMsg(cdPairs[i%2], 3, 3, uint64(i), 0, 1, uint64(i))
+			if i%64 == 5 {
+				m = d.appMsg(cdPairs[i%2], 3, 3, uint64(i), 1, 1, uint64(i))
+			}
+			return m
+		}
+		m := raftpb.Message{Type: cdAllTypes[2+i%(len(cdAllTypes)-2)], From: 1, To: 2, Term: 3, Index: uint64(i), Commit: uint64(i) / 2}
+		if rafthttp.VerifIsLinkHeartbeatMessage(&m) {
+			m.From = 1
+		}
+		return m
+	}
+	msgs := make([]raftpb.Message, 0, n+1)
+	msgs = append(msgs, mk(0))
+	q <- msgs[0]
+	// the writer has taken the first message and is now provably inside Write
+	select {
+	case <-c.stalled:
+	case <-time.After(30 * time.Second):
+		return
+	}
+	for i := 1; i <= n; i++ {
+		msgs = append(msgs, mk(i))
+	}
+	// hand over as many as the queue takes while the writer is stalled, release it, and hand
+	// over the rest behind (always a blocking send, nothing is ever dropped on this side)
+	first := n
+	if first > cap(q) {
+		first = cap(q)
+	}
+	for i := 1; i <= first; i++ {
+		q <- msgs[i]
+	}
+	close(c.gate)
+	fed := make(chan struct{})
+	go func() {
+		for i := first + 1; i <= n; i++ {
+			q <- msgs[i]
+		}
+		close(fed)
+	}()
+	hb := rafthttp.VerifLinkHeartbeatMessage()
+	var hbRef []byte
+	if v2 {
+		hbRef = []byte{rafthttp.VerifMsgTypeLinkHeartbeat}
+	} else {
+		var b bytes.Buffer
+		rafthttp.VerifNewMessageEncoder(&b).Encode(&hb)
+		hbRef = b.Bytes()
+	}
+	count := func(raw []byte) (ends []int, nmsg int) {
+		ends = cdSplit(v2, raw)
+		st := 0
+		for _, e := range ends {
+			if !bytes.Equal(raw[st:e], hbRef) {
+				nmsg++
+			}
+			st = e
+		}
+		return
+	}
+	// wait until every message is on the connection; give up when the queue is empty and
+	// nothing has arrived for a while (then only what arrived is logged: on an overloaded
+	// machine that loses the tail of the log, never a verdict)
+	var raw []byte
+	var ends []int
+	lastLen, lastGrow := -1, time.Now()
+	for t0 := time.Now(); ; time.Sleep(2 * time.Millisecond) {
+		raw = c.bytes()
+		var nmsg int
+		ends, nmsg = count(raw)
+		if nmsg >= n+1 {
+			break
+		}
+		if len(raw) != lastLen {
+			lastLen, lastGrow = len(raw), time.Now()
+		}
+		idle := time.Since(lastGrow)
+		select {
+		case <-fed:
+			if len(q) == 0 && idle > 3*time.Second {
+				goto done
+			}
+		default:
+		}
+		if time.Since(t0) > 90*time.Second {
+			goto done
+		}
+	}
+done:
+	d.nburst++
+	d.burstSizes = append(d.burstSizes, n)
+	// attribute frames to messages and log in segments
+	dec := cdNewDecoder(v2, true, bytes.NewReader(raw), receiver, sender)
+	stream := "msg"
+	if v2 {
+		stream = "v2"
+	}
+	next, st := 0, 0
+	for i, e := range ends {
+		if i%100 == 0 {
+			d.tw.Emit(trace.M{"ev": "reset", "stream": stream, "local": receiver, "remote": sender, "buffered": true, "stage": "burst"})
+			d.nseg++
+		}
+		b := raw[st:e]
+		st = e
+		var m raftpb.Message
+		if bytes.Equal(b, hbRef) {
+			m = hb
+		} else if next < len(msgs) {
+			m = msgs[next]
+			next++
+			d.nburstMsg++
+		} else {
+			m = raftpb.Message{Type: raftpb.MessageType(99)} // a frame nobody handed over
+		}
+		kind := "full"
+		if v2 {
+			switch b[0] {
+			case rafthttp.VerifMsgTypeLinkHeartbeat:
+				kind = "hb"
+			case rafthttp.VerifMsgTypeAppEntries:
+				kind = "cont"
+			}
+		}
+		d.nenc++
+		d.tw.Emit(trace.M{"ev": "enc", "m": cdMsgRec(&m, !v2), "dig": cdDigest(&m), "kind": kind, "nbytes": len(b), "err": ""})
+		var got raftpb.Message
+		var err error
+		func() {
+			defer func() {
+				if r := recover(); r != nil {
+					d.panicEv("decode", r)
+					err = fmt.Errorf("panic")
+				}
+			}()
+			got, err = dec.Decode()
+		}()
+		d.ndec++
+		if err != nil {
+			var z raftpb.Message
+			d.tw.Emit(trace.M{"ev": "dec", "m": cdMsgRec(&z, !v2), "dig": "", "err": cdErrText(err), "errclass": cdErrClass(err)})
+			break
+		}
+		d.tw.Emit(trace.M{"ev": "dec", "m": cdMsgRec(&got, !v2), "dig": cdDigest(&got), "err": "", "errclass": "none"})
+	}
+	d.nburstMissing += len(msgs) - next
+}
+
 // ------------------------------------------------------------------ main
 
 func codecsim(args []string) error {
@@ -1832,6 +2087,7 @@ func codecsim(args []string) error {
 	nconn := fs.Int("conn", 0, "stream-level scenarios with a real streamReader: connections cut at a seeded byte, re-attach")
 	npost := fs.Int("post", 0, "messages posted through a real pipeline to the real pipelineHandler (+ cut bodies)")
 	nsnap := fs.Int("snap", 0, "snapshot posts (createSnapBody) to the real snapshotHandler (+ cut bodies)")
+	burst := fs.String("burst", "", "burst sizes relative to the writer's queue, comma separated: h-1,h,h+1,h+2,h+3,m,c-1,c,c+1 (h = half the queue = flush batch, m = 3/4, c = capacity); each on both stream types")
 	nexplore := fs.Int("explore", 0, "streams explored byte by byte (truncation, corruption)")
 	full := fs.Bool("full", false, "explore every truncation point of streams up to 32 KB and 10x the samples of larger ones")
 	payload := fs.Bool("payload", false, "also corrupt payload bytes")
@@ -1909,6 +2165,19 @@ func codecsim(args []string) error {
 	if *nconn > 0 || *npost > 0 || *nsnap > 0 {
 		rafthttp.SetLogLevel(0)
 	}
+	if *burst != "" {
+		rafthttp.SetLogLevel(0)
+		c := rafthttp.VerifStreamBufSize
+		for _, w := range strings.Split(*burst, ",") {
+			n, ok := map[string]int{"h-1": c/2 - 1, "h": c / 2, "h+1": c/2 + 1, "h+2": c/2 + 2, "h+3": c/2 + 3, "h+9": c/2 + 9,
+				"m": c * 3 / 4, "c-1": c - 1, "c": c, "c+1": c + 1, "c+9": c + 9}[strings.TrimSpace(w)]
+			if !ok {
+				return fmt.Errorf("unknown burst size %q", w)
+			}
+			d.burstScenario(true, n)
+			d.burstScenario(false, n)
+		}
+	}
 	for i := 0; i < *nconn; i++ {
 		d.streamScenario(i%3 != 2, false, true)
 	}
@@ -1944,13 +2213,15 @@ func codecsim(args []string) error {
 		"truncations": d.ntrunc, "corruptions": d.ncorrupt, "panics": d.npanic, "decode_errors": d.nerrpath,
 		"skipped_large_alloc":   d.nhuge,
 		"above_limit_cases_run": d.nhugeRun, "child_crashes": d.ncrash, "child_processes": d.nchild,
-		"corruptions_not_run_after_crashes": d.nnotrun, "segments_with_short_reads": d.nchunked, "conn_scenarios": d.nscenario, "conn_connections_cut": d.nconnCut, "conn_delivered": d.ndeliver,
+		"corruptions_not_run_after_crashes": d.nnotrun, "segments_with_short_reads": d.nchunked, "bursts": d.nburst, "burst_messages": d.nburstMsg, "burst_not_written": d.nburstMissing,
+		"conn_scenarios": d.nscenario, "conn_connections_cut": d.nconnCut, "conn_delivered": d.ndeliver,
 		"posts": d.npost, "snapshot_posts": d.nsnappost,
 		"stream_connections": d.nconn, "stream_reconnects": d.nreconnect,
 		"stream_messages": d.nstreamMsg, "stream_heartbeats": d.nstreamHB, "stream_not_written": d.nstreamDropped, "stream_connections_not_logged": d.nstreamAborted, "resend_after_big_scenarios": d.nresend} {
 		sum[k] = v
 	}
 	sum["bytes"] = d.bytesTotal
+	sum["burst_sizes"] = d.burstSizes
 	sum["trunc_classes"] = d.truncClasses
 	sum["corrupt_classes"] = d.corruptClasses
 	sum["corrupt_fields"] = d.corruptFields
